@@ -33,9 +33,17 @@ PLAN = dict(
                 "whole-program theorems C07_codegen_simulates_int / C07_codegen_simulates_cf (integers; integers + closures without "
                 "captured variables): every terminating run of the linear machine is reproduced by the ISA run of the emitted code, for "
                 "64-bit literals and arguments; examples with >13 live variables, MOVK/MOVN literals, X30 saved around BL, X10 evacuation, "
-                "jump tables through registers and spill slots are evaluated on both machines. Heap statements (Let/Switch/closures with "
-                "captured variables) are covered by the correspondence + execution of the implementation's output on the ISA model "
-                "against the AxCut machine on every run",
+                "jump tables through registers and spill slots are evaluated on both machines. HEAP STATEMENTS (round 3, port of the x86-64 "
+                "development with the back-end independent parts shared): heap-aware relation hrel over the heap-instrumented machine of "
+                "Sem/AxHeap.v (HEAP = X0 / FREE = X1 = the allocator state of Model/Heap.v, values represented in heap words by the shared "
+                "Proof/HRep.v), the AArch64 allocator refinements of C09 (acquire_block reg/spill, a_store = alloc_object, a_load = "
+                "load_object incl. the X10 evacuation), statement theorems C07_sim_let / _switch / _create_captured / _invoke_captured / "
+                "_substitute_objects, C07_sim_exec_heap, and C07_codegen_simulates_partial: for ALL eleven statement forms every terminating "
+                "run of the linear machine is reproduced by the ISA run of the emitted code (hypotheses: lin_check_prog, ann_check_prog - a "
+                "theorem for outputs of the linearizer: C07_codegen_correct_linearized_partial -, entry_ext, plain names/types, lits_i64, "
+                "args_i64, tags_i64, asm_wf, code_small, arity, heap_fits); non-vacuity on the heap example program hx_lin evaluated on "
+                "both machines. The correspondence + execution of the implementation's output on the ISA model against the AxCut machine "
+                "on every run ties the model to the Rust code",
     assumptions=["Sem/A64Sem.v is the meaning of the emitted instructions (follows the Arm ARM; cannot be run on hardware in this sandbox; "
                  "validated against the AxCut machine on every run)",
                  "Sem/AxSem.v run_linear is the meaning of linear AxCut",
